@@ -491,10 +491,16 @@ func valueWidths(c *lp.Ctx, all []string, size int) {
 	for _, ew := range []struct {
 		enc string
 		w   int
-	}{{"i8", 1}, {"i16", 2}, {"bytes3", 3}, {"te7", 7}, {"i64", 8}} {
+	}{{"i8", 1}, {"i16", 2}, {"bytes3", 3}, {"te7", 7}, {"i64", 8}, {"bytes12", 12}, {"bytes16", 16}, {"bytes33", 33}} {
 		curEnc, curVals = ew.enc, widthVals(ew.w)
 		for k := 0; k < c.Pick(2, 6); k++ {
 			ks := keySet(c, 2+it, size)
+			if ew.w > 8 && k == 0 {
+				// values wider than any integer AND keys that end at inner nodes (the empty key included)
+				ks = gen.PrefixChains(c.Rng, size)
+				ks.Keys = withEmptyKey(ks.Keys)
+				ks.Class = "prefixchains+emptykey"
+			}
 			if ew.w == 1 && len(ks.Keys) > 200 {
 				ks.Keys = ks.Keys[:200]
 			}
